@@ -641,6 +641,9 @@ CORPUS = [
     'F:6d::G|L2025 N+li/li:10000000000',              # D23 (shrunk replay)
     'S::2c78:E|$f4bb84900df3f6d36',                   # a %f text of exactly 64 characters (seeded change: 64-byte stack buffer in String_Format_To)
     'S:7070::G|N064ld/ld:-42 L2c20 $s6162',           # a zero-padded Int of exactly 64 characters, then a separator and a String
+    'S:::G|N+hhd/hhd:-1',                             # %hhd: -1 read back as 255 (narrow sign restoration)
+    'F::2c78:E|Nhd/hi:-32768 L2c Njd/jd:-9223372036854775808 L2c Nzx/zx:-1',   # h, j, z modifiers at the edges
+    'S:::G|Ntd/td:4294967297 L20 Nqd/qd:-4294967297 L20 Nlld/lld:9223372036854775807',
     'S:7070:2c:G|$i123 L2c20 $s610a62 L3b $f405edd2f1a9fbe77',
     'S:::G|$i-9223372036854775808 L20 $i9223372036854775807',
     'S:::G|$s070809' + '0a0b0c0d5c27223f' + ' L2c $s ' + 'L2c $sff80fe25',
